@@ -62,6 +62,10 @@ jstr(const char *line, const char *key, char *out, size_t n)
         out[i] = 0;
 }
 
+/* a class that stands for several values is a sweep, not a sample: apply_rule() sets rule_nalt to the number of values
+ * of the class it was asked for and instantiates value number rule_alt; the walk repeats the element for each of them */
+static int rule_alt = 0, rule_nalt = 1;
+
 /* apply (field, cls) to the descriptor; returns 0 when the driver does not know the rule */
 static int
 apply_rule(hx_job *j, const char *f, const char *c)
@@ -141,9 +145,13 @@ apply_rule(hx_job *j, const char *f, const char *c)
                 case IMB_AUTH_MD5:
                         v = 13;
                         break;
-                case IMB_AUTH_ZUC256_EIA3_BITLEN:
-                        v = 5;
+                case IMB_AUTH_ZUC256_EIA3_BITLEN: {
+                        /* permitted: 4, 8, 16 - every other length up to 20 */
+                        static const int zt[] = { 5, 1, 2, 3, 6, 7, 9, 10, 11, 12, 13, 14, 15, 17, 18, 19, 20 };
+                        rule_nalt = (int) (sizeof(zt) / sizeof(zt[0]));
+                        v = (uint64_t) zt[rule_alt % rule_nalt];
                         break;
+                }
                 default:
                         v = v > 1 ? v - 1 : v + 1;
                         break;
@@ -679,6 +687,8 @@ drv_invalid(int argc, char **argv)
                 /* rules about AAD need some AAD in the baseline */
                 if (!strcmp(field, "aad") && sp.aadlen == 0)
                         sp.aadlen = 8;
+                rule_nalt = 1;
+                for (rule_alt = 0; rule_alt < rule_nalt; rule_alt++) {
                 hx_job base, mut, bmut;
                 int e0 = 0, e1 = 0, e2 = 0;
                 hx_job_build(M, &sp, 1, &base);
@@ -702,8 +712,10 @@ drv_invalid(int argc, char **argv)
                 memset(&tmpj, 0, sizeof(tmpj));
                 int bst = submit_burst_api(&bmut, &e2, &nret, 0, 0, &qafter);
                 int bunt = bst < 0 ? 0 : untouched(&bmut);
-                n++;
+                if (rule_alt == 0)
+                        n++;
                 tr_begin("Inv");
+                tr_int("alt", rule_alt);
                 tr_str("kind", kind);
                 tr_int("mode", sp.cm);
                 tr_int("klen", sp.kl ? sp.kl : 16);
@@ -731,6 +743,8 @@ drv_invalid(int argc, char **argv)
                 hx_job_free(&mut);
                 hx_job_free(&bmut);
                 ga_reset();
+                }
+                rule_alt = 0;
         }
         fclose(rf);
         /* ---- misuse of the burst calls (per suite: stale suite ids; generic: NULL entry, order) ---- */
